@@ -469,6 +469,12 @@ func advSource(shape string, n int) []byte {
 		sb.WriteString("x = 'a'" + rep(" .. 'a'", n))
 	case "unary":
 		sb.WriteString("x = " + rep("- ", n) + "1")
+	case "unary-var": // not a constant: constant folding must not re-walk the operand at every level
+		sb.WriteString("x = " + rep("- ", n) + "y")
+	case "arith-var": // left-nested chain of n additions of variables (loading time must not be quadratic in n)
+		sb.WriteString("x = a" + rep(" + a", n))
+	case "arith-mixed": // constant sub-expressions inside a chain that is not constant
+		sb.WriteString("x = a" + rep(" + (2 * 3 - -1)", n))
 	case "not":
 		sb.WriteString("x = " + rep("not ", n) + "1")
 	case "pow":
@@ -636,6 +642,8 @@ func advList(tier string) []advCase {
 		// flat data tables: constants are looked up in a map since /repo c7c7b9c (was a linear scan: 200000 distinct constants took 130 s)
 		{"consttable-num", 1000}, {"consttable-num", 200000}, {"consttable-str", 200000},
 		{"do", 100000}, {"do", 500000}, // linear since /repo 950d344 (was quadratic: 100000 took a minute)
+		// chains of operators over variables: constFold re-walked the whole operand at every level (quadratic: 40000 terms took 20 s)
+		{"arith-var", 1000}, {"arith-var", 150000}, {"unary-var", 150000}, {"arith-mixed", 100000},
 		{"tables", 1000000}, // C08-3: kills the process
 	}
 	if tier == "thorough" {
@@ -649,7 +657,7 @@ func advList(tier string) []advCase {
 // deep AST nesting: the recursive descent of compile.go overflows the Go stack (C08-3)
 func kfAdv(shape string, n int) []string {
 	switch shape {
-	case "tables", "not", "calls", "cmp", "index", "funcs", "unary", "pow", "and", "concat":
+	case "tables", "not", "calls", "cmp", "index", "funcs", "unary", "pow", "and", "concat", "unary-var", "arith-var", "arith-mixed":
 		if n >= 500000 {
 			return []string{"C08-3"}
 		}
